@@ -28,7 +28,7 @@ ANCHORS = [
     "ginjax.geometric.functional_geometric_image:max_pool", "ginjax.geometric.functional_geometric_image:average_pool",
     "ginjax.geometric.geometric_image:GeometricImage.unpool", "ginjax.geometric.multi_image:MultiImage.average_pool",
 ]
-MIN_NONTRIVIAL = {"quick": 40, "thorough": 600}
+MIN_NONTRIVIAL = {"quick": 40, "thorough": 1500}
 WORKERS = {"quick": 8, "thorough": 16}
 TIMEOUT = {"quick": 1200, "thorough": 7200}
 TAU = 1e-4
@@ -37,7 +37,7 @@ INPUTS = ["normal", "normal", "normal", "zero", "constant", "onehot", "onechanne
 
 
 def cases(tier, seed):
-    n = 96 if tier == "quick" else 2000
+    n = 96 if tier == "quick" else 4800
     return [{"kind": KINDS[i % len(KINDS)], "D": 2 if (i // len(KINDS)) % 3 else 3} for i in range(n)]
 
 
